@@ -102,17 +102,22 @@ def jobs_c03(tier, seed):
     f = ["c03"]
     jobs = []
     ns = [2, 3] if tier == "quick" else [2, 3, 4, 5]
+    # quick: one wave of 14 queries on 16 cores (the 900 s budget); the other n=3 variants are thorough
+    quick3 = {"bytes": {0, 1, 2, 3}, "stream": {1, 3}, "str": {2, 3}}
     for n in ns:
         for mask in range(2 ** (n - 1)):
             cuts = "".join("|" if (mask >> i) & 1 else "." for i in range(n - 1))
             to = {2: 900, 3: 1800, 4: 3600, 5: 3 * 3600}[n]
             mem = 12 if n < 4 else 20
             opt = n >= 5
-            jobs.append(J(f"c03::bytes_n{n}_m{mask}", features=f, timeout_s=to, mem_gb=mem, optional=opt, all_covers=False, min_covers=1,
-                          bound=f"StripBytes: every byte string of length {n}, partition '{cuts}' ('|' = cut) vs strip_bytes"))
-            if n <= 4:
+            skip = lambda kind: tier == "quick" and n == 3 and mask not in quick3[kind]
+            if not skip("bytes"):
+                jobs.append(J(f"c03::bytes_n{n}_m{mask}", features=f, timeout_s=to, mem_gb=mem, optional=opt, all_covers=False, min_covers=1,
+                              bound=f"StripBytes: every byte string of length {n}, partition '{cuts}' ('|' = cut) vs strip_bytes"))
+            if n <= 4 and not skip("stream"):
                 jobs.append(J(f"c03::stream_n{n}_m{mask}", features=f, timeout_s=to, mem_gb=mem, optional=n >= 4, all_covers=False, min_covers=1,
                               bound=f"StripStream::write_all per chunk: every byte string of length {n}, partition '{cuts}'"))
+            if n <= 4 and not skip("str"):
                 jobs.append(J(f"c03::str_n{n}_m{mask}", features=f, timeout_s=to, mem_gb=mem, optional=n >= 4, all_covers=False, min_covers=1,
                               bound=f"StripStr: every UTF-8 string of {n} bytes whose cuts '{cuts}' fall on character boundaries vs strip_str"))
     return jobs
@@ -275,18 +280,18 @@ def jobs_c06(tier, seed):
         ("write_s_err0_utf8", "write(): same state; inner writer fails at its first call (Interrupted / WouldBlock / Other)"),
         ("write_s_short0_ground", "write(): 1 symbolic byte from Ground; short write of 0"),
         ("write_s_err0_csi", "write(): 1 symbolic byte inside a CSI sequence; error at the first inner call"),
-        ("write_s_short1_ground2", "write(): 2 symbolic bytes from Ground; inner writer accepts 1 byte"),
     ]
     q2 = [
+        ("write_s_short1_ground2", "write(): 2 symbolic bytes from Ground; inner writer accepts 1 byte"),
         ("write_s_err1_two_runs", "write(): text, C0 control, text (two printable runs, all symbolic); error at the second inner call"),
         ("write_s_short0_second_run", "write(): two printable runs; the second inner call accepts 0 bytes"),
     ]
     jobs = [J(f"c06::{n}", features=f, timeout_s=1800, mem_gb=24, expect_gb=6, all_covers=False, min_covers=1, bound=b + " -- concrete script, symbolic buffer and error kind") for n, b in q]
     jobs += [
         J("c06::write_all_2", features=f, timeout_s=1800, mem_gb=24, expect_gb=6, bound="one write_all() of a 2-byte buffer from any state reachable by a 2-byte prefix; error of any kind at any inner call"),
-        J("c06::write_fmt_2", features=f, timeout_s=1800, mem_gb=24, expect_gb=6, bound="write_fmt of two 1-byte ASCII fragments; error at any inner call"),
     ]
     if tier == "thorough":
+        jobs.append(J("c06::write_fmt_2", features=f, timeout_s=3600, mem_gb=30, expect_gb=12, optional=True, bound="write_fmt of two 1-byte ASCII fragments; error at any inner call"))
         for n, b in q2:
             jobs.append(J(f"c06::{n}", features=f, timeout_s=2 * 3600, mem_gb=30, expect_gb=12, optional=True, all_covers=False, min_covers=1, bound=b + " -- concrete script, symbolic buffer and error kind"))
         desc = "one write() of {n} symbolic byte(s) from the state carried after the prefix {p}; SYMBOLIC script: accept sizes in {{0,1,2,3,all}} per call, one error (Interrupted/WouldBlock/Other) at any inner call or none"
@@ -302,19 +307,30 @@ def jobs_c06(tier, seed):
 
 def jobs_c18(tier, seed):
     f = ["c18"]
+    fs = ["c18", "scripted_runs"]
+    W = dict(crate="wincon", all_covers=False, min_covers=1)
     jobs = [J("console::harness::cap_color_complete", crate="wincon", features=f, timeout_s=600, bound="cap_wincon_color: every colour (complete)")]
-    scripts = [("write_all_s_accept_all", "console accepts everything"), ("write_all_s_zero_second", "the second console call accepts 0 bytes (WriteZero)"),
-               ("write_all_s_fail_first", "the first console call fails (WouldBlock / Interrupted / Other)"), ("write_all_s_fail_second", "the second console call fails")]
-    for n, what in scripts:
-        jobs.append(J(f"console::harness::{n}", crate="wincon", features=f, timeout_s=1800, mem_gb=20, expect_gb=6, all_covers=False, min_covers=1,
-                      bound=f"write_all over 'c ESC[4em c' (text, colour digit and error kind symbolic) split after ESC into two calls; concrete console script: {what}"))
+    # assume-guarantee half: the real write loops over a scripted extractor (runs are C07's subject)
+    for k in ["other", "interrupted", "would_block"]:
+        jobs.append(J(f"console::scripted::scripted_write_all_{k}", features=fs, timeout_s=1500, mem_gb=16, expect_gb=5, **W,
+                      bound=f"write_all over 0-2 scripted runs ('ab','c') with SYMBOLIC styles (fg/bg/underline colour of any kind, effects); console script symbolic: each of <=4 calls accepts 0, 1 or all bytes, one error of kind {k} at any call"))
+    for k in ["other", "interrupted"]:
+        jobs.append(J(f"console::scripted::scripted_write_{k}", features=fs, timeout_s=900, mem_gb=12, expect_gb=2, **W,
+                      bound=f"write() over the same scripted runs; any accept sizes, one error of kind {k} at any of the first 3 console calls"))
     if tier == "thorough":
+        jobs.append(J("console::scripted::scripted_write_fmt", features=fs, timeout_s=2 * 3600, mem_gb=40, expect_gb=25, optional=True, **W,
+                      bound="write_fmt of two fragments over one scripted run; error at either console call (optional: the formatter-error path allocates a boxed error and exhausts 12 GB)"))
+        # end to end with the real extractor
+        scripts = [("write_all_s_accept_all", "console accepts everything"), ("write_all_s_zero_second", "the second console call accepts 0 bytes (WriteZero)"),
+                   ("write_all_s_fail_first", "the first console call fails (WouldBlock / Interrupted / Other)"), ("write_all_s_fail_second", "the second console call fails")]
+        for n, what in scripts:
+            jobs.append(J(f"console::harness::{n}", features=f, timeout_s=2 * 3600, mem_gb=20, expect_gb=8, optional=True, **W,
+                          bound=f"END TO END (real extractor): write_all over 'A ESC[4em B' (colour digit and error kind symbolic) split after ESC into two calls; concrete console script: {what}"))
         for c in [0, 1, 2, 4, 6]:
-            jobs.append(J(f"console::harness::write_all_cut_{c}", crate="wincon", features=f, timeout_s=2 * 3600, mem_gb=30, expect_gb=12, optional=True, all_covers=False, min_covers=1,
-                          bound=f"write_all over the same skeleton split after byte {c}; SYMBOLIC console script: <=4 calls, any accept sizes, one error at any call"))
-    if tier == "thorough":
-        jobs.append(J("console::harness::write_reports_consumed_only_if_handed_over", crate="wincon", features=f, timeout_s=2 * 3600, mem_gb=30, expect_gb=12, optional=True, all_covers=False, min_covers=1,
-                      bound="write() over the same skeleton; any accept sizes, one error at any of the first 3 console calls"))
+            jobs.append(J(f"console::harness::write_all_cut_{c}", features=f, timeout_s=2 * 3600, mem_gb=30, expect_gb=12, optional=True, **W,
+                          bound=f"END TO END: write_all over the same skeleton split after byte {c}; SYMBOLIC console script: <=4 calls, any accept sizes, one error at any call"))
+        jobs.append(J("console::harness::write_reports_consumed_only_if_handed_over", features=f, timeout_s=2 * 3600, mem_gb=30, expect_gb=12, optional=True, **W,
+                      bound="END TO END: write() over the same skeleton; any accept sizes, one error at any of the first 3 console calls"))
     return jobs
 
 
@@ -560,7 +576,7 @@ REGISTRY = {
         "jobs": jobs_c06,
         "level": "model_checking",
         "functions": ["anstream::strip::{write, write_all, write_fmt, offset_to} behind StripStream::<&mut dyn Write>::{write, write_vectored, write_all, write_fmt}", "anstream::fmt::Adapter::{write_fmt, write_str}", "anstream::adapter::StripBytes::strip_next"],
-        "bounds": {"quick": "write(): 6 concrete inner-writer scripts (accept all / short write of 0 or 1 / error at the first inner call) x symbolic buffers of 1-2 bytes x symbolic error kind, from carried states Ground, CsiEntry and inside a character; write_all / write_fmt: 2 bytes from any state reachable by a 2-byte prefix, error at any inner call", "thorough": "write() over two printable runs with an error / short write at the second inner call (optional: the replay after a short write makes this the most expensive query of the repository); fully symbolic scripts (accept sizes {0,1,2,3,all}, one error anywhere) for 1 byte from 5 carried states and 2 bytes from 3 (optional); write_vectored (optional)"},
+        "bounds": {"quick": "write(): 5 concrete inner-writer scripts (accept all / short write of 0 / error at the first inner call) x 1 symbolic byte x symbolic error kind, from carried states Ground, CsiEntry and inside a character; write_all: 2 bytes from any state reachable by a 2-byte prefix, error at any inner call", "thorough": "write() of 2 symbolic bytes with a short write of 1; write_fmt of two fragments (optional); write() over two printable runs with an error / short write at the second inner call (optional: the replay after a short write makes this the most expensive query of the repository); fully symbolic scripts (accept sizes {0,1,2,3,all}, one error anywhere) for 1 byte from 5 carried states and 2 bytes from 3 (optional); write_vectored (optional)"},
         "outside": "longer buffers within one call; more than one injected error per call; the protocol over several calls follows by induction from the lemma's state clause (not unrolled)",
         "assumptions": ["the reference for 'stripped form' is an independent copy of StripBytes run on the consumed prefix (C01 ties StripBytes to the model)", "hook StripStream::verif_state observes the carried state", "inputs of the recorded C01 finding class (control byte inside broken UTF-8) are excluded while that finding is open"],
     },
@@ -568,9 +584,9 @@ REGISTRY = {
         "jobs": jobs_c18,
         "level": "model_checking",
         "functions": ["anstream/src/wincon.rs include!d from the working tree: write, write_all, write_fmt, cap_wincon_color, impl Write for WinconStream<S> (compiled, not driven)", "anstream::adapter::WinconBytes::extract_next (parser + styled-run capture)", "anstream/src/fmt.rs Adapter"],
-        "bounds": {"quick": "colour capping complete; write loop: skeleton input of 7 bytes with one SGR sequence (2 visible bytes, colour digit symbolic), split after ESC into two write_all calls, 4 concrete console scripts (accept all / zero-length acceptance / error at the first or second call, kind symbolic)", "thorough": "five split positions with fully symbolic console scripts, and the write() contract (optional: hours)"},
-        "outside": "other input shapes (the run extraction itself is C07); more than two chunks; Interrupted errors (retried by design, would need an unbounded loop)",
-        "assumptions": ["stand-ins for crate::stream::{AsLockedWrite,IsTerminal} (harness/wincon/src/lib.rs) mirror the Windows bounds; crate::adapter and crate::fmt are the real code"],
+        "bounds": {"quick": "colour capping complete; assume-guarantee split: write_all and write() of the real file over a SCRIPTED extractor yielding 0-2 runs ('ab','c') with fully symbolic styles, console scripts symbolic (<=4 calls accepting 0/1/all bytes, one error at any call, kinds Other / Interrupted / WouldBlock one query each)", "thorough": "adds write_fmt over the scripted extractor and the END-TO-END queries with the real extractor over a 7-byte skeleton (4 concrete console scripts, 5 split positions with symbolic scripts, the write() contract); all optional: each needs 20 min to hours"},
+        "outside": "quick: what the real extractor yields for an input (that is C07, decided there on the same working tree); more than two runs or runs longer than 2 bytes; more than one console error per call",
+        "assumptions": ["quick tier: crate::adapter::WinconBytes is replaced by a scripted stand-in (harness/wincon/src/lib.rs, feature scripted_runs) that yields harness-chosen (Style, String) runs; the stream's code is otherwise the real file", "stand-ins for crate::stream::{AsLockedWrite,IsTerminal} (harness/wincon/src/lib.rs) mirror the Windows bounds; crate::adapter and crate::fmt are the real code"],
     },
     "C19": {
         "jobs": jobs_c19,
